@@ -1,36 +1,56 @@
 import PdshVerif.Dsh.FanLive
 import PdshVerif.Dsh.FanExec
+import PdshVerif.Dsh.FanGLive
+import PdshVerif.Dsh.FanGExec
+import PdshVerif.Dsh.FanRelay
+import PdshVerif.Props.C05
 
 /-!
 # C03 — every target gets exactly one command; pdsh ends when all are done
 
-Model: the labelled transition system `Dsh/Fan.lean` (dispatcher D, workers W i, POSIX
-mutex/condvar semantics including spurious wake-ups).  `Exec (init v f n) ls s`: the label sequence
-`ls` (the history, oldest first) is an execution from the initial state with wait construct `v`,
-fanout `f`, `n` targets, ending in `s`.  All theorems hold for BOTH wait constructs (`if` as pinned,
-`while` as repaired), every fanout ≥ 1 (only `progress` needs f ≥ 1), every `n`, every label
-sequence: every schedule and any number of spurious wake-ups.
+Models.  `Dsh/Fan.lean`: the labelled transition system of dsh()'s dispatch loop, worker epilogue and drain loop
+(dispatcher D, workers W i, POSIX mutex/condvar semantics including spurious wake-ups) with the worker epilogue as
+in the pinned text (`lock; threadcount--; signal; unlock`).  `Dsh/FanG.lean`: the same LTS with the SIGNALLING
+DISCIPLINE LEFT OPEN — each worker chooses whether its wake-up call comes inside or after the critical section, and
+`pthread_cond_signal` | `pthread_cond_broadcast` is no distinction (one waiter).  `Fan` is the sub-LTS of `FanG` in
+which nobody unlocks first (`Dsh/FanGEmbed.lean: exec_of_fan`).  `Dsh/FanRelay.lean`: `FanG` composed with the relay
+of property C05.  `Exec (init v f n) ls s`: the label sequence `ls` (the history, oldest first) is an execution from
+the initial state with wait construct `v`, fanout `f`, `n` targets, ending in `s`.  All theorems hold for BOTH wait
+constructs (`if` as pinned, `while` as repaired), every fanout ≥ 1 (only `progress` needs f ≥ 1), every `n`, every
+label sequence: every schedule and any number of spurious wake-ups.
 
-* safety: `once_only`, `none_else`, `exit_after_all`, `final_is_end`;
-* liveness: `progress` (until dsh() has returned some NON-spurious operation is enabled: no lost
-  wake-up, no deadlock), `rank_decreases` (every non-spurious step decreases `rank`, a spurious
-  wake-up increases it by at most 2), `steps_bounded` (an execution with k spurious wake-ups has at
-  most 18n + 13 + 3k steps) and `stuck_is_final` — together: every execution with finitely many
-  spurious wake-ups that is continued as long as a non-spurious operation is enabled ends, and it
-  ends with dsh() returned.
+clause of the property                         | pinned discipline (section Pinned) | every discipline (`G.`) | composed
+-----------------------------------------------|------------------------------------|-------------------------|---------
+command started exactly once per target        | `once_only`, `each_op_once`        | `G.once_only`, `G.each_op_once` | `EndToEnd.returns_after_output_delivered` (1)
+no command for anything else                   | `none_else`                        | `G.none_else`           |
+returns only after every command has finished  | `exit_after_all`, `return_after_teardown` | `G.exit_after_all`, `G.return_after_teardown` | (2)
+... and its output has been delivered          | (monitor)                          | (monitor)               | `EndToEnd.returns_after_output_delivered` (3), importing `C05.relay_lossless_any_interleaving`
+nothing happens after the return               | `final_is_end`                     | `G.final_only_late` (only late wake-up calls), `G.final_is_end` |
+no lost completion notification / no deadlock  | `progress`, `progress_enabled`, `stuck_is_final` | `G.progress`, `G.progress_enabled`, `G.stuck_is_final` |
+pdsh ends                                      | `rank_decreases`, `steps_bounded`  | `G.rank_decreases`, `G.steps_bounded` (≤ 18n + 13 + 3k steps with k spurious wake-ups, late calls included) |
 
-The connect outcome is not part of this LTS (a failed connect goes through the same operations); where an
+The trace acceptor (`Driver/FanDrv.lean`, `pdshmodel fan`) runs `FanG.step`; it maps an observed call to a label
+by what the call does in the state it is made in (an unlock before the wake-up call is `unlockFirst`, a signal or
+broadcast after the unlock is `signalAfter`), so the harness recognises the discipline of the code under test by
+behaviour and the evidence records which one it saw.
+
+The connect outcome is not part of these LTS (a failed connect goes through the same operations); where an
 outcome matters (the Timed LTS of C07, the monitors) it is success / failure, never a descriptor: the
 correspondence maps `rcmd_connect() ≥ 0` to success, and the descriptor VALUE the scripted transport returns is
-generated over {0, 1, 2, ≥ 3} (harness key `lowfds`: pdsh started with stdin / all of stdio closed, the lowest
-free number is handed out first and given back by close()); `checks/c03.py` also runs the real `pdsh -R exec`
-with descriptor 0 closed.
+generated over {0, 1, 2, ≥ 3} (harness key `lowfds`, pinned cases in every run); `checks/c03.py` also runs the real
+`pdsh -R exec` with descriptor 0 closed.
 
-Not proved here: that dsh.c refines the LTS (trace correspondence of `checks/c03.py`); fairness of
-the real scheduler; workers whose command never ends, `pthread_create` failure and cancellation
-(^C^Z, C20) are outside the model; fanout 0 (the dispatcher then waits forever: C18).
+Not proved here: that dsh.c refines the LTS (trace correspondence of `checks/c03.py`: every run's projected trace is
+replayed through `FanG.step`, incl. the pdcp worker `_rcp_thread`); fairness of the real scheduler; workers whose
+command never ends (C07: `immortal_never_returns`), `pthread_create` failure and cancellation (^C^Z, C20) are
+outside these models; fanout 0 (the dispatcher then waits forever: C18).  The composed LTS of `EndToEnd` is tied to
+dsh.c the same way: runs whose reads / closes are logged go through `FanRelay.step` (relay mode of `pdshmodel fan`:
+a read outside the worker's loop, or a worker leaving its loop before its polled streams are over, is rejected);
+what the relay writes for given chunks is C05's correspondence; a worker that gives up on its host at a timeout is
+the Timed LTS's business (C07 `healthy_complete`).
 -/
 namespace PdshVerif.Props.C03
+section Pinned
 open PdshVerif.Dsh.Fan
 
 /-- every worker operation (connect begin/end, destroy begin/end, lock, signal, unlock) happens at
@@ -175,5 +195,242 @@ example : (run (init .whileWait 1 2)
      .d (.wake true), .d .relock, .d .wait,
      .w 1 .connectBegin, .w 1 .connectEnd, .w 1 .destroyBegin, .w 1 .destroyEnd, .w 1 .lock, .w 1 .signal,
      .w 1 .unlock, .d (.wake false), .d .relock, .d .unlock, .d .ret]).map (·.dpc) = some .returned := by decide
+
+end Pinned
+
+/-! ## the same, for every signalling discipline (`Dsh/FanG.lean`)
+
+From here on the LTS is `FanG`: each worker chooses freely whether its wake-up call comes before or after its
+unlock, and the call may be `pthread_cond_signal` or `pthread_cond_broadcast` (no distinction of the LTS: the
+dispatcher is the only waiter).  The executions of `Fan` above are the executions of `FanG` in which no worker
+chooses `unlockFirst`.  Statements that change: when dsh() has returned every worker has given its slot back and
+dropped the mutex, but may still owe a (then pointless) wake-up call -- so `exit_after_all` speaks of "one of the two
+unlocks", and `final_is_end` becomes `final_only_late`. -/
+namespace G
+open PdshVerif.Dsh.FanG
+
+/-- every worker operation happens at most once per target in any execution -/
+theorem each_op_once {v : Variant} {f n : Nat} {ls : List Label} {s : St}
+    (he : Exec (init v f n) ls s) (i : Nat) (a : WAct) : ls.count (.w i a) ≤ 1 := by
+  have hh := hist_exec he
+  have h1 := hh.sigs i
+  have h2 := hh.unls i
+  cases a
+  case signal => revert h1; split <;> omega
+  case signalAfter => revert h1; split <;> omega
+  case unlock => revert h2; split <;> omega
+  case unlockFirst => revert h2; split <;> omega
+  all_goals (rw [hh.common i _ rfl]; split <;> omega)
+
+/-- C03: the remote command is started at most once for each target -/
+theorem once_only {v : Variant} {f n : Nat} {ls : List Label} {s : St}
+    (he : Exec (init v f n) ls s) (i : Nat) : ls.count (.w i .connectBegin) ≤ 1 :=
+  each_op_once he i .connectBegin
+
+/-- C03: no command is started for anything but the `n` targets -/
+theorem none_else {v : Variant} {f n : Nat} {ls : List Label} {s : St}
+    (he : Exec (init v f n) ls s) {j : Nat} (hm : Label.w j .connectBegin ∈ ls) : j < n := by
+  have hc := (hist_exec he).common j .connectBegin rfl
+  have hpos : 0 < ls.count (.w j .connectBegin) := List.count_pos_iff.mpr hm
+  rw [hc] at hpos
+  split at hpos
+  · rename_i hle
+    have hne : pc s j ≠ .idle := by intro h; rw [h] at hle; simp [ord, WAct.post] at hle
+    have := lt_of_getElem? (getElem?_of_getD (w := pc s j) rfl hne)
+    rw [(exec_params he).2.2] at this
+    simpa [init] using this
+  · omega
+
+/-- C03: when dsh() has returned, every target's command was started exactly once, torn down exactly once, and its
+    worker has given its slot back (`lock` = lock and `threadcount--`) and released the mutex (one of the two
+    unlocks) -- whatever the discipline -/
+theorem exit_after_all {v : Variant} {f n : Nat} {ls : List Label} {s : St}
+    (he : Exec (init v f n) ls s) (hf : Final s) (i : Nat) (hi : i < n) :
+    ls.count (.w i .connectBegin) = 1 ∧ ls.count (.w i .destroyEnd) = 1 ∧ ls.count (.w i .lock) = 1 ∧
+      ls.count (.w i .unlock) + ls.count (.w i .unlockFirst) = 1 := by
+  have hinv := inv_exec (inv_init v f n) he
+  have hlen : s.ws.length = n := by have := (exec_params he).2.2; simpa [init] using this
+  have hout : isOut (pc s i) = true := hinv.fin (by rw [hf]; rfl) i (by omega)
+  have hh := hist_exec he
+  refine ⟨?_, ?_, ?_, ?_⟩
+  · rw [hh.common i _ rfl]; revert hout; cases pc s i <;> simp [isOut, ord, WAct.post]
+  · rw [hh.common i _ rfl]; revert hout; cases pc s i <;> simp [isOut, ord, WAct.post]
+  · rw [hh.common i _ rfl]; revert hout; cases pc s i <;> simp [isOut, ord, WAct.post]
+  · rw [hh.unls i, hout]; rfl
+
+/-- the return of dsh() comes after the last teardown -/
+theorem return_after_teardown {v : Variant} {f n : Nat} {ls : List Label} {s : St}
+    (he : Exec (init v f n) (ls ++ [.d .ret]) s) (i : Nat) (hi : i < n) : Label.w i .destroyEnd ∈ ls := by
+  have hfin : Final s := by
+    obtain ⟨s1, _, hs⟩ := exec_snoc_inv he
+    simp only [step] at hs
+    split at hs <;> simp at hs
+    subst hs; rfl
+  have := (exit_after_all he hfin i hi).2.1
+  have hpos : 0 < (ls ++ [Label.d DAct.ret]).count (.w i .destroyEnd) := by omega
+  have hm := List.count_pos_iff.mp hpos
+  simpa using hm
+
+/-- after dsh() has returned nothing happens any more except wake-up calls that workers which chose to unlock first
+    still owe (they find nobody waiting) -/
+theorem final_only_late {v : Variant} {f n : Nat} {s s' : St} (h : Reach v f n s) (hf : Final s) {l : Label}
+    (hs : step s l = some s') : l.late = true := by
+  have hinv := inv_reach h
+  cases l with
+  | d a =>
+    have hd : s.dpc = .returned := hf
+    cases a <;> simp [step, hd] at hs
+  | w i a =>
+    obtain ⟨hpre, _, _⟩ := w_step_facts hs
+    have := hinv.fin (by rw [hf]; rfl) i (lt_of_getElem? hpre)
+    have hp : pc s i = a.pre := getD_of_getElem? hpre
+    rw [hp] at this
+    cases a <;> simp [isOut, WAct.pre] at this ⊢
+    rfl
+
+/-- ... and in the disciplines of the pinned kind (wake-up call inside the critical section) nothing at all: a
+    state in which no worker is `released` and dsh() has returned is dead -/
+theorem final_is_end {v : Variant} {f n : Nat} {s : St} (h : Reach v f n s) (hf : Final s)
+    (hnr : ∀ j, pc s j ≠ .released) (l : Label) : step s l = none := by
+  cases hs : step s l with
+  | none => rfl
+  | some s' =>
+    exfalso
+    have hl := final_only_late h hf hs
+    cases l with
+    | d a => simp [Label.late] at hl
+    | w i a =>
+      obtain ⟨hpre, _, _⟩ := w_step_facts hs
+      have hp : pc s i = a.pre := getD_of_getElem? hpre
+      cases a <;> simp [Label.late] at hl
+      exact hnr i hp
+
+/-- C03 (no lost wake-up, no deadlock), every discipline: in every reachable state in which dsh() has not returned,
+    some operation other than a spurious wake-up is enabled -/
+theorem progress {v : Variant} {f n : Nat} {s : St} (hf : 0 < f) (h : Reach v f n s) (hnf : ¬ Final s) :
+    ∃ l s', l.spurious = false ∧ step s l = some s' := by
+  have hinv := inv_reach h
+  have hfs : 0 < s.f := by rw [(reach_params h).2.1]; exact hf
+  obtain ⟨l, hsp, hen⟩ := progress_inv hinv hfs hnf
+  cases hs : step s l with
+  | none => rw [hs] at hen; cases hen
+  | some s' => exact ⟨l, s', hsp, hs⟩
+
+/-- the same in terms of the enabled sets the trace acceptor compares with the harness's runnable set -/
+theorem progress_enabled {v : Variant} {f n : Nat} {s : St} (hf : 0 < f) (h : Reach v f n s) (hnf : ¬ Final s) :
+    dEnabled s = true ∨ ∃ i, i < n ∧ wEnabled s i = true := by
+  obtain ⟨l, s', hsp, hs⟩ := progress hf h hnf
+  have hen := enabled_of_step hsp (by rw [hs]; rfl)
+  cases l with
+  | d a => exact Or.inl hen
+  | w i a => exact Or.inr ⟨i, by rw [← (reach_params h).2.2]; exact hen.2, hen.1⟩
+
+/-- a state in which no non-spurious operation is enabled is a state in which dsh() has returned -/
+theorem stuck_is_final {v : Variant} {f n : Nat} {s : St} (hf : 0 < f) (h : Reach v f n s)
+    (hstuck : ∀ l, l.spurious = false → step s l = none) : Final s := by
+  by_cases hd : s.dpc = .returned
+  · exact hd
+  · obtain ⟨l, s', hsp, hs⟩ := progress hf h hd
+    rw [hstuck l hsp] at hs; cases hs
+
+/-- every non-spurious step decreases the rank; a spurious wake-up increases it by at most 2 -/
+theorem rank_decreases {v : Variant} {f n : Nat} {s s' : St} {l : Label} (h : Reach v f n s)
+    (hs : step s l = some s') : (l.spurious = false → rank s' < rank s) ∧ rank s' ≤ rank s + 2 :=
+  rank_step (inv_reach h) hs
+
+theorem rank_init_le (v : Variant) (f n : Nat) : rank (init v f n) ≤ 18 * n + 13 := by
+  have hs : ∀ n, ((List.replicate n W.idle).map wrank).sum = 11 * n := by
+    intro n; induction n with
+    | zero => rfl
+    | succ k ih => simp [List.replicate_succ, wrank] at ih ⊢; omega
+  simp only [rank, init, hs]
+  split <;> simp [drank] <;> omega
+
+/-- termination, every discipline: an execution with k spurious wake-ups has at most 18·n + 13 + 3·k steps (late
+    wake-up calls after the return included) -/
+theorem steps_bounded {v : Variant} {f n : Nat} {ls : List Label} {s : St} (he : Exec (init v f n) ls s) :
+    ls.length + rank s ≤ 18 * n + 13 + 3 * ls.countP Label.spurious := by
+  have key : ∀ {ls s}, Exec (init v f n) ls s →
+      ls.length + rank s ≤ rank (init v f n) + 3 * ls.countP Label.spurious := by
+    intro ls s he
+    induction he with
+    | nil => simp
+    | snoc he' hs ih =>
+      rename_i ls0 s0 l0 s1
+      have hr := rank_step (inv_exec (inv_init v f n) he') hs
+      rw [List.length_append, List.countP_append]
+      cases hsp : l0.spurious with
+      | false =>
+        have := hr.1 hsp
+        simp [hsp]; omega
+      | true =>
+        have := hr.2
+        simp [hsp]; omega
+  have := key he
+  have := rank_init_le v f n
+  omega
+
+/-- non-vacuity: a complete run (f = 1, n = 2) in which worker 0 signals inside the critical section and worker 1
+    unlocks first; dsh() returns BEFORE worker 1's late wake-up call, which then finds nobody waiting -/
+example : (run (init .whileWait 1 2)
+    [.d .lock, .d (.create 0), .d .unlock, .d .lock, .d .wait,
+     .w 0 .connectBegin, .w 0 .connectEnd, .w 0 .destroyBegin, .w 0 .destroyEnd, .w 0 .lock, .w 0 .signal,
+     .d (.wake false), .w 0 .unlock, .d .relock, .d (.create 1), .d .unlock,
+     .w 1 .connectBegin, .w 1 .connectEnd, .w 1 .destroyBegin, .w 1 .destroyEnd, .w 1 .lock, .w 1 .unlockFirst,
+     .d .lock, .d .unlock, .d .ret, .w 1 .signalAfter]).map (fun s => (s.dpc, s.ws)) =
+    some (.returned, [.done, .done]) := by decide
+
+end G
+
+/-! ## end to end: "returns only after every started command has finished and its output has been delivered"
+
+The protocol LTS (every signalling discipline) composed with the relay of property C05 (`Dsh/FanRelay.lean`): relay
+events of a target's streams happen while its worker is in the poll / read loop, the worker leaves the loop when
+its polled streams have finished, everything else is free.  The relay theorem `C05.relay_lossless_any_interleaving`
+is IMPORTED, not assumed. -/
+namespace EndToEnd
+open PdshVerif.Dsh PdshVerif.Dsh.FanRelay PdshVerif.Relay
+
+/-- C03, whole statement, for every fanout ≥ 0, number of targets, schedule of dispatcher, workers and relay
+    events, cutting of the output into chunks, number of spurious wake-ups, wait construct and signalling
+    discipline: when dsh() has returned, for every target `i` the command was started exactly once and torn down
+    exactly once, and -- if its connect succeeded -- for each of its polled streams the stdio calls found in the GLOBAL output (all hosts
+    interleaved) write exactly what the remote side sent on that stream, complete, in order, once, under `i`'s label
+    (for contents in the relay's domain `Dom05`: no NUL byte, bounded line length, no rc marker split across the
+    buffer — see Props/C05). -/
+theorem returns_after_output_delivered (cfg : Cfg) (names : Nat → Bytes) {sizeMeta : Nat} (hm1 : 1 ≤ sizeMeta)
+    (hm2 : sizeMeta ≤ 800) {b0 : PBuf} (hb0 : mkFifoBuf sizeMeta = some b0)
+    {v : FanG.Variant} {f n : Nat} {sopt : Bool} {ls : List FanRelay.Label} {s : FanRelay.St}
+    (he : FanRelay.Exec (FanRelay.init v f n sopt) ls s) (hf : FanG.Final s.fan) (i : Nat) (hi : i < n)
+    (hconn : s.nofd.contains i = false) (strm : Bool) (hstrm : strm = true → sopt = true)
+    (hdom : Spec.Dom05 (markerOf (!strm)) (chunksOf s.evs (i, strm)).flatten = true) :
+    (ls.filterMap projLabel).count (.w i .connectBegin) = 1 ∧
+    (ls.filterMap projLabel).count (.w i .destroyEnd) = 1 ∧
+    PdshVerif.C05.written (logOf (s.evs.foldl (gstep fifoOps cfg names) (ginit b0)) (i, strm)) =
+      Spec.render (labelPrefix cfg.labels cfg.keep (names i)) (chunksOf s.evs (i, strm)).flatten := by
+  have hfe := fan_refinement he
+  have h1 := G.exit_after_all hfe hf i hi
+  refine ⟨h1.1, h1.2.1, ?_⟩
+  have hk := final_streams_complete he hf i hi hconn strm hstrm
+  exact PdshVerif.C05.relay_lossless_any_interleaving cfg names hm1 hm2 hb0 s.evs (i, strm)
+    (chunksOf s.evs (i, strm)) hk hdom
+
+/-- non-vacuity of the composed system: one target, fanout 1; the worker connects, two chunks arrive on stdout, the
+    stream finishes, the worker tears down, unlocks FIRST and signals late; dsh() returns -/
+def demoTrace : List FanRelay.Label :=
+  [.fan (.d .lock), .fan (.d (.create 0)), .fan (.d .unlock), .fan (.w 0 .connectBegin), .fan (.w 0 .connectEnd),
+   .ev (0, false) (.feed [104, 105]), .ev (0, false) (.feed [10]), .ev (0, false) .finish,
+   .fan (.w 0 .destroyBegin), .fan (.w 0 .destroyEnd), .fan (.w 0 .lock), .fan (.w 0 .unlockFirst),
+   .fan (.d .lock), .fan (.d .unlock), .fan (.d .ret)]
+
+example : ∃ s, FanRelay.Exec (FanRelay.init .whileWait 1 1 false) demoTrace s ∧ FanG.Final s.fan ∧
+    chunksOf s.evs (0, false) = [[104, 105], [10]] := by
+  have h : (FanRelay.run (FanRelay.init .whileWait 1 1 false) demoTrace).map
+      (fun s => (s.fan.dpc, chunksOf s.evs (0, false))) = some (.returned, [[104, 105], [10]]) := by decide
+  cases hr : FanRelay.run (FanRelay.init .whileWait 1 1 false) demoTrace with
+  | none => rw [hr] at h; cases h
+  | some s => rw [hr] at h; simp at h; exact ⟨s, exec_of_run hr, h.1, h.2⟩
+
+end EndToEnd
 
 end PdshVerif.Props.C03
